@@ -3,7 +3,7 @@ import Pendulum.Model.LocalTime
 import Pendulum.Gen.FormatZones
 /-! Hand model of `Formatter.parse` (formatting/formatter.py:360-698), i.e. of `from_format`, **as repaired** by
 the `fix:` commits of this property (zone names with several `/`, `Y` converter, `re.fullmatch`, values taken
-from the full match, negative fractional timestamps, escapes tokenized like `format()`).
+from the full match, negative fractional timestamps, escapes tokenized like `format()`, meridiem test with absent members read as 0).
 
 The code tokenizes the format with `_FORMAT_RE` (the same tokenization as `format()`), turns literal and
 escaped text into `re.escape`d text and each token into a named group built from `_REGEX_TOKENS` / the locale,
@@ -400,18 +400,19 @@ structure Result where
   tz : Option TzP
   deriving Repr, DecidableEq
 
-/-- tuple comparison `(h, mi, s, us) >= (13, 0, 0, 0)` with `None` members (TypeError when a `None` is reached) -/
-def meridiemTooLate (h : Int) (mi s us : Option Int) : Except String Bool :=
-  if h > 13 then .ok true else if h < 13 then .ok false else
-  match mi with
-  | none => .error "TypeError"
-  | some mi => if mi > 0 then .ok true else if mi < 0 then .ok false else
-    match s with
-    | none => .error "TypeError"
-    | some s => if s > 0 then .ok true else if s < 0 then .ok false else
-      match us with
-      | none => .error "TypeError"
-      | some us => .ok (us ≥ 0)
+/-- `x or 0`: a member the format did not supply (`None`) is read as 0 -/
+def orZero (x : Option Int) : Int :=
+  match x with
+  | some v => v
+  | none => 0
+
+/-- tuple comparison `(h, mi or 0, s or 0, us or 0) >= (13, 0, 0, 0)` (the repaired "# Meridiem" test of
+    `_check_parsed`: before the repair a `None` member reached on the tie `h = 13` raised `TypeError`) -/
+def meridiemTooLate (h : Int) (mi s us : Option Int) : Bool :=
+  if h > 13 then true else if h < 13 then false else
+  if orZero mi > 0 then true else if orZero mi < 0 then false else
+  if orZero s > 0 then true else if orZero s < 0 then false else
+  decide (orZero us ≥ 0)
 
 def validYMD (y m d : Int) : Bool := decide (1 ≤ y ∧ y ≤ 9999) && decide (Cal.validDate y m d)
 
@@ -469,9 +470,8 @@ def checkParsed (p : Parsed) (now : Now) : Except String Result :=
       | some pm =>
         match p.hour with
         | none => throw "ValueError"
-        | some h => do
-          let late ← meridiemTooLate h p.minute p.second p.microsecond
-          if late then throw "ValueError"
+        | some h =>
+          if meridiemTooLate h p.minute p.second p.microsecond then throw "ValueError"
           else pure (some (h % 12 + (if pm then 12 else 0)))
       | none => pure p.hour
     let month : Int := match month with
